@@ -294,6 +294,30 @@ def c09_constants(w, act, st, rec, fresh, recF):
         if not _close(rec["g"][i], recC["g"][i], rtol=1e-8, atol=1e-10):
             raise Violation("param-vs-constant:g", "g differs at probe %d between the parametric OCP and the one with constants" % i)
     w.probe("c09_constants_equal")
+    # read-back: sampling a per-interval parameter on the control grid returns column k at node k and, at the final
+    # node, the last interval's column (or the extra column with include_last)
+    if "_opti" in rec and spec.method is not None:
+        opti = rec["_opti"]
+        N = spec.method["N"]
+        for p in spec.names("parameter"):
+            s = spec.sym(p)
+            if s.get("grid", "") != "control" or p not in spec.values:
+                continue
+            rows = s.get("rows", 1)
+            ncol = N + 1 if s.get("include_last") else N
+            a = np.array(raw_value(spec.values[p]), dtype=float)
+            if a.ndim == 0:
+                a = np.full((rows, ncol), float(a))
+            a = a.reshape((rows, ncol))
+            exp = a if s.get("include_last") else np.hstack([a, a[:, -1:]])
+            try:
+                got = _eval(opti, rec, act.ocp.sample(act.syms[p], grid="control")[1])
+            except Exception as e:
+                raise Violation("param-sample-raises", "sampling per-interval parameter %s raised %s: %s" % (p, type(e).__name__, str(e)[:160]))
+            if got.shape != exp.shape or not np.allclose(got, exp, rtol=1e-12, atol=1e-12):
+                raise Violation("param-sample", "sample(%s, grid='control') reads %s, values given %s (include_last=%s)" % (
+                    p, np.round(got, 6).tolist(), np.round(exp, 6).tolist(), bool(s.get("include_last"))))
+            w.probe("c09_param_sample_readback")
     # the solver-visible parameter vector, predicted entry by entry by the model
     created = expected_p(spec)
     if created is not None and "_opti" in rec:
